@@ -32,6 +32,7 @@ def H2(u, v=3):
 '''
 
 KNOWN_FOR_TARGET = 'for-target-killed-on-zero-iterations'
+KNOWN_CHAIN_EQ = 'chained-equality-under-equality-operators-evaluates-middle-operand-twice'
 KNOWN_LISTS_AUG = 'lists-augassign-subscript-operator-missing'
 
 
@@ -77,6 +78,18 @@ def is_for_target_finding(src, a, b):
                 if isinstance(t, ast.Name) and isinstance(t.ctx, ast.Store):
                     assigned_elsewhere.add(t.id)
     return bool(targets & assigned_elsewhere)
+
+
+def is_chained_equality_finding(src, feats, a, b):
+    """Feature.EQUALITY_OPERATORS requested, the program has a comparison chain (two or more operators) that contains
+    == or !=, and the only difference is in the log of external calls (a middle operand evaluated once more)"""
+    import ast
+    if 'EQUALITY_OPERATORS' not in repr(feats):
+        return False
+    if a[0] != b[0]:
+        return False          # result / exception differ: not this finding
+    return any(isinstance(n, ast.Compare) and len(n.ops) >= 2 and any(isinstance(o, (ast.Eq, ast.NotEq)) for o in n.ops)
+               for n in ast.walk(ast.parse(src)))
 
 
 def is_lists_aug_finding(src, feats, b):
@@ -509,6 +522,8 @@ def check(run):
                             run.violation(d, {}, classify=KNOWN_FOR_TARGET)
                         elif is_lists_aug_finding(src, feats, b):
                             run.violation(d, {}, classify=KNOWN_LISTS_AUG)
+                        elif is_chained_equality_finding(src, feats, a, b):
+                            run.violation(d, {}, classify=KNOWN_CHAIN_EQ)
                         else:
                             failures.append((d, src, dv, (rec, repr(feats)), None))
                         break
